@@ -246,11 +246,11 @@ impl GenericsAnalyzer {
                     syn::WherePredicate::Type(predicate_type) => match &predicate_type.bounded_ty {
                         syn::Type::Path(type_path) => {
                             if type_path.qself.is_some() || type_path.path.leading_colon.is_some() {
-                                self.trait_generics.where_predicates.push(predicate.clone());
+                                self.lift_where_predicate(predicate, generics);
                                 continue;
                             }
                             if type_path.path.segments.len() != 1 {
-                                self.trait_generics.where_predicates.push(predicate.clone());
+                                self.lift_where_predicate(predicate, generics);
                                 continue;
                             }
                             let first_segment = type_path.path.segments.first().unwrap();
@@ -262,11 +262,11 @@ impl GenericsAnalyzer {
                             }
                         }
                         _ => {
-                            self.trait_generics.where_predicates.push(predicate.clone());
+                            self.lift_where_predicate(predicate, generics);
                         }
                     },
                     _ => {
-                        self.trait_generics.where_predicates.push(predicate.clone());
+                        self.lift_where_predicate(predicate, generics);
                     }
                 }
             }
@@ -276,6 +276,37 @@ impl GenericsAnalyzer {
             generic_param: Some(generic_param_ident.clone()),
             trait_bounds: deps_trait_bounds,
         })
+    }
+
+    /// Lift a where predicate of the function to the trait, unless it mentions one of the function's own
+    /// lifetime parameters: those are declared on the method, where the predicate stays anyway.
+    fn lift_where_predicate(&mut self, predicate: &syn::WherePredicate, generics: &syn::Generics) {
+        struct LifetimeFinder<'g> {
+            generics: &'g syn::Generics,
+            found: bool,
+        }
+
+        impl syn::visit_mut::VisitMut for LifetimeFinder<'_> {
+            fn visit_lifetime_mut(&mut self, lifetime: &mut syn::Lifetime) {
+                if self
+                    .generics
+                    .lifetimes()
+                    .any(|param| param.lifetime.ident == lifetime.ident)
+                {
+                    self.found = true;
+                }
+            }
+        }
+
+        let mut finder = LifetimeFinder {
+            generics,
+            found: false,
+        };
+        syn::visit_mut::VisitMut::visit_where_predicate_mut(&mut finder, &mut predicate.clone());
+
+        if !finder.found {
+            self.trait_generics.where_predicates.push(predicate.clone());
+        }
     }
 
     fn deps_with_generics(
@@ -297,7 +328,7 @@ impl GenericsAnalyzer {
 
         if let Some(where_clause) = &generics.where_clause {
             for predicate in &where_clause.predicates {
-                self.trait_generics.where_predicates.push(predicate.clone());
+                self.lift_where_predicate(predicate, generics);
             }
         }
 
